@@ -13,6 +13,7 @@ mod e1crash;
 mod e1maint;
 mod e1refs;
 mod e1x;
+mod e1y;
 mod lineage;
 mod driver;
 mod e2;
